@@ -7,6 +7,110 @@ use rlib_rand::{Rand, Rng};
 use vcore::*;
 
 // ---------------------------------------------------------------------------------------------
+// seed alphabets
+//
+// A seed is an arbitrary u64: a counter, but also a hash, a bit mask, an id shifted into the high bits.
+// Every seed-quantified family therefore runs on a dense interval [0, S) AND on the structured seeds
+// below, whose significant bits sit at every position of the word.
+
+fn dedup_keep_order(s: &mut Vec<u64>) {
+    let mut seen = std::collections::BTreeSet::new();
+    s.retain(|x| seen.insert(*x));
+}
+
+/// The alternating / block patterns of every block width 1..32.
+const PATTERNS: [u64; 12] = [
+    0x5555_5555_5555_5555,
+    0xaaaa_aaaa_aaaa_aaaa,
+    0x3333_3333_3333_3333,
+    0xcccc_cccc_cccc_cccc,
+    0x0f0f_0f0f_0f0f_0f0f,
+    0xf0f0_f0f0_f0f0_f0f0,
+    0x00ff_00ff_00ff_00ff,
+    0xff00_ff00_ff00_ff00,
+    0x0000_ffff_0000_ffff,
+    0xffff_0000_ffff_0000,
+    0x0000_0000_ffff_ffff,
+    0xffff_ffff_0000_0000,
+];
+
+/// The core of the structured alphabet (simplest first): every single-bit seed 1<<k, the top of u64,
+/// and the alternating / half-word patterns.
+pub fn core_structured_seeds() -> Vec<u64> {
+    let mut s: Vec<u64> = (0..64).map(|k| 1u64 << k).collect();
+    s.extend([u64::MAX, u64::MAX - 1]);
+    s.extend(PATTERNS);
+    s
+}
+
+/// The structured alphabet (simplest first): the core; small multipliers (3, 5, 42, 0xab, 0xabc) shifted
+/// to every position k = 0..63 (bits shifted out of the word are lost); only-low-bits masks 2^k-1 and
+/// only-high-bits masks !0<<k; 2^k+1; all ones but one bit; the top bit plus one other bit; every value
+/// of the top byte alone (b<<56); u64::MAX - j for j <= 16; two dense constants.  Zero is not structured
+/// (it is the first dense seed).
+pub fn structured_seeds() -> Vec<u64> {
+    let mut s = core_structured_seeds();
+    for m in [3u64, 5, 42, 0xab, 0xabc] {
+        s.extend((0..64).map(|k| m << k));
+    }
+    s.extend((2..64).map(|k| (1u64 << k) - 1));
+    s.extend((1..64).map(|k| u64::MAX << k));
+    s.extend((1..64).map(|k| (1u64 << k) + 1));
+    s.extend((0..64).map(|k| !(1u64 << k)));
+    s.extend((0..63).map(|k| 1u64 << 63 | 1u64 << k));
+    s.extend((1..=255u64).map(|b| b << 56));
+    s.extend((0..=16).map(|j| u64::MAX - j));
+    s.extend([0x9e3779b97f4a7c15, 0xdeadbeefcafebabe]);
+    s.retain(|&x| x != 0);
+    dedup_keep_order(&mut s);
+    s
+}
+
+/// Every odd multiplier m < 2^mbits shifted to every position k = 0..63 (bits shifted out are lost), by
+/// position then multiplier: all the seeds whose significant bits span at most `mbits` positions.
+pub fn positional_seeds(mbits: u32) -> Vec<u64> {
+    let mut s: Vec<u64> = (0..64u32).flat_map(|k| (0..1u64 << (mbits - 1)).map(move |h| (2 * h + 1) << k)).collect();
+    s.retain(|&x| x != 0);
+    dedup_keep_order(&mut s);
+    s
+}
+
+/// Facts that make the structured alphabets non-vacuous: every count of trailing zeros and every count
+/// of leading zeros 0..63 occurs in the core (hence in the full alphabet), and the full alphabet has
+/// seeds with 52+ trailing zeros other than single bits.
+pub fn seed_alphabet_selfcheck() -> Result<(), String> {
+    let (core, full, positional) = (core_structured_seeds(), structured_seeds(), positional_seeds(4));
+    for k in 0..64u32 {
+        if !core.iter().any(|s| s.trailing_zeros() == k) || !core.iter().any(|s| s.leading_zeros() == k) {
+            return Err(format!("the core structured seed alphabet has no seed with {k} trailing / leading zeros"));
+        }
+        // (a seed with 63 trailing zeros has a single bit)
+        if k < 63 && !positional.iter().any(|s| s.trailing_zeros() == k && s.count_ones() > 1) {
+            return Err(format!("the positional seed family has no multi-bit seed with {k} trailing zeros"));
+        }
+    }
+    if !core.iter().all(|s| full.contains(s)) || full.iter().filter(|s| s.trailing_zeros() >= 52 && s.count_ones() > 1).count() < 100 || full.contains(&0) {
+        return Err("the structured seed alphabet lacks its core or the multi-bit seeds with only high bits set".into());
+    }
+    // a generator written here whose state keeps the trailing zero bits of its seed (state *= A, no
+    // increment): the period search must see it from structured seeds, and from no seed of 1..256
+    let weak = |seed: u64| -> Vec<u64> {
+        let mut st = seed;
+        (0..4096)
+            .map(|_| {
+                st = st.wrapping_mul(6364136223846793005);
+                (st ^ (st >> 32)) % 10
+            })
+            .collect()
+    };
+    let seen = full.iter().filter(|&&s| min_period(&weak(s), 1024).is_some()).count();
+    if seen < 100 || (1..256).any(|s| min_period(&weak(s), 1024).is_some()) || min_period(&weak(0xabc << 52), 1024).is_none() {
+        return Err(format!("the period search over the structured seed alphabet does not separate a multiplicative generator from its dense seeds ({seen} periodic structured seeds)"));
+    }
+    Ok(())
+}
+
+// ---------------------------------------------------------------------------------------------
 // determinism
 
 pub const STREAM_LEN: usize = 64;
@@ -76,8 +180,8 @@ pub fn determinism_seeds(dense: u64) -> Vec<u64> {
         s.extend([(1u64 << k) - 1, 1u64 << k, (1u64 << k) + 1]);
     }
     s.extend([u64::MAX - 2, u64::MAX - 1, u64::MAX, 42, 0x9e3779b97f4a7c15, 0xdeadbeefcafebabe]);
-    let mut seen = std::collections::BTreeSet::new();
-    s.retain(|x| seen.insert(*x));
+    s.extend(structured_seeds());
+    dedup_keep_order(&mut s);
     s
 }
 
@@ -168,7 +272,7 @@ pub struct ShuffleAcc {
     pub non_identity: Vec<u64>, // [len]
     pub shuffles: u64,
     pub bad: u64,
-    pub first_bad: Option<(u64, usize, String)>, // (seed, len, observed)
+    pub first_bad: Option<(u64, usize, u64, String)>, // (index of the seed in its family, len, seed, observed)
 }
 
 impl ShuffleAcc {
@@ -200,10 +304,71 @@ impl ShuffleAcc {
     }
 }
 
-pub fn run_shuffle(seeds: u64) -> ShuffleAcc {
-    (0..seeds)
+/// The seed sets the shuffle families are counted over.
+#[derive(Clone)]
+pub enum SeedFamily {
+    /// every seed of [0, S)
+    Dense(u64),
+    /// `positional_seeds(mbits)` followed by the rest of `structured_seeds()`
+    Structured { mbits: u32, list: Vec<u64> },
+}
+
+impl SeedFamily {
+    pub fn structured(mbits: u32) -> SeedFamily {
+        let mut list = positional_seeds(mbits);
+        list.extend(structured_seeds());
+        dedup_keep_order(&mut list);
+        SeedFamily::Structured { mbits, list }
+    }
+    pub fn len(&self) -> u64 {
+        match self {
+            SeedFamily::Dense(s) => *s,
+            SeedFamily::Structured { list, .. } => list.len() as u64,
+        }
+    }
+    /// The i-th seed in enumeration order.
+    pub fn get(&self, i: u64) -> u64 {
+        match self {
+            SeedFamily::Dense(_) => i,
+            SeedFamily::Structured { list, .. } => list[i as usize],
+        }
+    }
+    pub fn is_dense(&self) -> bool {
+        matches!(self, SeedFamily::Dense(_))
+    }
+    pub fn describe(&self) -> String {
+        match self {
+            SeedFamily::Dense(s) => format!("[0,{s})"),
+            SeedFamily::Structured { mbits, list } => format!("the structured family ({} seeds: every odd m < 2^{mbits} shifted to every bit position, and the structured seed alphabet)", list.len()),
+        }
+    }
+    /// Members of a replay object that name the family (`seeds` alone is the dense interval, as before).
+    pub fn to_json(&self) -> Value {
+        match self {
+            SeedFamily::Dense(s) => json!({"seeds": s}),
+            SeedFamily::Structured { mbits, list } => json!({"seed_family": "structured", "multiplier_bits": mbits, "seeds": list.len()}),
+        }
+    }
+    pub fn from_json(v: &Value) -> Result<SeedFamily, String> {
+        match v["seed_family"].as_str() {
+            None => Ok(SeedFamily::Dense(v["seeds"].as_u64().unwrap_or(0))),
+            Some("structured") => {
+                let f = SeedFamily::structured(v["multiplier_bits"].as_u64().filter(|b| (1..=20).contains(b)).ok_or("bad multiplier_bits")? as u32);
+                if Some(f.len()) != v["seeds"].as_u64() {
+                    return Err("the structured seed family of this build differs from the one the replay file was written with".into());
+                }
+                Ok(f)
+            }
+            Some(other) => Err(format!("unknown seed family {other:?}")),
+        }
+    }
+}
+
+pub fn run_shuffle(fam: &SeedFamily) -> ShuffleAcc {
+    (0..fam.len())
         .into_par_iter()
-        .fold(ShuffleAcc::new, |mut acc, seed| {
+        .fold(ShuffleAcc::new, |mut acc, idx| {
+            let seed = fam.get(idx);
             for len in 0..=MAX_PERM_LEN {
                 acc.shuffles += 1;
                 match shuffled(seed, len) {
@@ -225,8 +390,8 @@ pub fn run_shuffle(seeds: u64) -> ShuffleAcc {
                             Ok(v) => format!("returned {v:?}"),
                             Err(p) => format!("panicked: {p}"),
                         };
-                        if acc.first_bad.as_ref().map_or(true, |f| (seed, len) < (f.0, f.1)) {
-                            acc.first_bad = Some((seed, len, obs));
+                        if acc.first_bad.as_ref().map_or(true, |f| (idx, len) < (f.0, f.1)) {
+                            acc.first_bad = Some((idx, len, seed, obs));
                         }
                     }
                 }
@@ -236,8 +401,8 @@ pub fn run_shuffle(seeds: u64) -> ShuffleAcc {
         .reduce(ShuffleAcc::new, ShuffleAcc::merge)
 }
 
-pub fn count_perm(seeds: u64, len: usize, perm: &[u8]) -> u64 {
-    (0..seeds).into_par_iter().filter(|&s| shuffled(s, len).map_or(false, |v| v == perm)).count() as u64
+pub fn count_perm(fam: &SeedFamily, len: usize, perm: &[u8]) -> u64 {
+    (0..fam.len()).into_par_iter().filter(|&i| shuffled(fam.get(i), len).map_or(false, |v| v == perm)).count() as u64
 }
 
 pub fn confirm_shuffle(v: &Value) -> Result<(), String> {
@@ -251,18 +416,18 @@ pub fn confirm_shuffle(v: &Value) -> Result<(), String> {
             Err(p) => Err(format!("shuffling 0..{len} with Rng::from_seed({seed}) panicked: {p}")),
         };
     }
-    let seeds = v["seeds"].as_u64().unwrap_or(0);
+    let seeds = SeedFamily::from_json(v)?;
     let perm: Vec<u8> = v["perm"].as_array().map(|a| a.iter().map(|x| x.as_u64().unwrap_or(0) as u8).collect()).unwrap_or_default();
-    let c = count_perm(seeds, len, &perm);
-    let mean = seeds as f64 / FACT[len] as f64;
+    let c = count_perm(&seeds, len, &perm);
+    let mean = seeds.len() as f64 / FACT[len] as f64;
     if fam == "shuffle_reaches_all" {
         if c > 0 {
             Ok(())
         } else {
-            Err(format!("no seed in [0,{seeds}) shuffles 0..{len} into {perm:?} (mean count per rearrangement would be {mean:.1})"))
+            Err(format!("no seed in {} shuffles 0..{len} into {perm:?} (mean count per rearrangement would be {mean:.1})", seeds.describe()))
         }
     } else if (c as f64) < mean / 2.0 || (c as f64) > mean * 2.0 {
-        Err(format!("{c} of the seeds in [0,{seeds}) shuffle 0..{len} into {perm:?}; the mean per rearrangement is {mean:.1}, allowed [{:.1}, {:.1}]", mean / 2.0, mean * 2.0))
+        Err(format!("{c} of the seeds in {} shuffle 0..{len} into {perm:?}; the mean per rearrangement is {mean:.1}, allowed [{:.1}, {:.1}]", seeds.describe(), mean / 2.0, mean * 2.0))
     } else {
         Ok(())
     }
@@ -274,7 +439,9 @@ pub fn confirm_shuffle(v: &Value) -> Result<(), String> {
 // One case = (integer type, range form, bounds) with a value set of n <= 2^16 values; for every seed of
 // the case the stream of `draws` consecutive `rng.next(range)` results must have no period p <= maxp,
 // where maxp = max(tier base, n) and draws >= 3 * maxp (a low-bits-of-a-counter generator repeats with
-// period n on a value set of n = 2^k values, so the search always reaches n).
+// period n on a value set of n = 2^k values, so the search always reaches n).  The seeds of a case are
+// the dense interval [0, S) followed by structured seeds: the whole structured alphabet for the plain
+// `next(0..len)` cases, its core (single bits, top of u64, patterns) for every other case.
 
 /// Value-set sizes <= 256: every size up to 16, the powers of two, and 255 (the largest non power of two).
 pub const SMALL_LENS: [u128; 20] = [2, 3, 4, 5, 6, 7, 8, 9, 10, 11, 12, 13, 14, 15, 16, 32, 64, 128, 255, 256];
@@ -291,10 +458,17 @@ pub struct PeriodCase {
     pub n: u128,
     pub draws: usize,
     pub maxp: usize,
+    /// dense seeds [0, seeds)
     pub seeds: u64,
 }
 
 impl PeriodCase {
+    /// The seeds of the case in enumeration order: [0, seeds), then those of the structured alphabet of
+    /// the case (`full` for the plain cases, `core` for the others) that are not in the interval.
+    pub fn seed_list(&self, full: &[u64], core: &[u64]) -> Vec<u64> {
+        let structured = if self.is_plain() { full } else { core };
+        (0..self.seeds).chain(structured.iter().copied().filter(|&s| s >= self.seeds)).collect()
+    }
     /// The `next(0..len)` cases on usize are the original family and keep their short label.
     pub fn is_plain(&self) -> bool {
         self.ty == "usize" && self.form == Form::Range && self.a == 0
@@ -441,11 +615,15 @@ pub struct PeriodReport {
     pub full_width_cases: u64,
     pub long_streams: u64, // streams searched for a period above the tier base
     pub base_maxp: usize,
+    pub structured_streams: u64, // streams from a seed outside the dense interval of the case
+    pub structured_seeds_full_core: (u64, u64),
+    pub high_only_streams: u64, // streams from a seed with 52+ trailing zero bits
 }
 
 pub fn run_period(budget: PeriodBudget) -> PeriodReport {
     let cases = period_cases(budget);
-    let jobs: Vec<(usize, u64)> = cases.iter().enumerate().flat_map(|(ci, c)| (0..c.seeds).map(move |s| (ci, s))).collect();
+    let (full, core) = (structured_seeds(), core_structured_seeds());
+    let jobs: Vec<(usize, u64)> = cases.iter().enumerate().flat_map(|(ci, c)| c.seed_list(&full, &core).into_iter().map(move |s| (ci, s))).collect();
     let res: Vec<(Option<String>, Option<usize>, u64)> = jobs
         .par_iter()
         .map(|&(ci, seed)| {
@@ -475,15 +653,19 @@ pub fn run_period(budget: PeriodBudget) -> PeriodReport {
         full_width_cases: cases.iter().filter(|c| c.n == 1u128 << type_bits(c.ty)).count() as u64,
         long_streams: jobs.iter().filter(|j| cases[j.0].maxp > budget.maxp).count() as u64,
         base_maxp: budget.maxp,
+        structured_streams: jobs.iter().filter(|j| j.1 >= cases[j.0].seeds).count() as u64,
+        structured_seeds_full_core: (full.len() as u64, core.len() as u64),
+        high_only_streams: jobs.iter().filter(|j| j.1.trailing_zeros() >= 52).count() as u64,
     };
     for c in &cases {
         let key = format!("{}:{}", c.ty, c.form.name());
+        let streams = c.seed_list(&full, &core).len() as u64;
         match rep.per_type_form.iter_mut().find(|e| e.0 == key) {
             Some(e) => {
                 e.1 += 1;
-                e.2 += c.seeds;
+                e.2 += streams;
             }
-            None => rep.per_type_form.push((key, 1, c.seeds)),
+            None => rep.per_type_form.push((key, 1, streams)),
         }
     }
     // distinct streams per case, summed over the cases (the case index is mixed into the fingerprint)
